@@ -117,6 +117,10 @@ func (x *exec) callCommon(st *State, fr *Frame, ins ssa.Instruction, c *ssa.Call
 			}
 		}
 	}
+	if cs := x.cutSpecFor(fr, ins, ci); cs != nil {
+		k0 := k
+		k = func(st *State, rets []Value) { x.cutAfter(st, fr, ins, cs, rets, k0) }
+	}
 	// contract?
 	if fs := e.w.Contracts[ci.key]; fs != nil && !(fs.Inline && ci.fn != nil && ci.fn.Blocks != nil) {
 		if d := fs.Opts["dispatch"]; d != "" && c.IsInvoke() {
@@ -596,6 +600,43 @@ func (x *exec) applyContract(st *State, fr *Frame, ins ssa.Instruction, ci calle
 			for _, m := range fs.Modifies {
 				penv.havocLocation(st, m)
 			}
+		}
+	}
+	// "opt havoc_pointee = v": the callee writes the variable its argument v points to (through an interface box or
+	// directly) and nothing else of the verified state (decoders, scanners)
+	if hp := fs.Opts["havoc_pointee"]; hp != "" {
+		done := false
+		if call, ok := ins.(ssa.CallInstruction); ok {
+			c := call.Common()
+			for i, n := range names {
+				if n != hp {
+					continue
+				}
+				ai := i
+				if c.IsInvoke() || (ci.fn == nil && ci.method != nil) {
+					ai = i - 1
+				}
+				if ci.fn != nil && ci.fn.Signature.Recv() != nil && !c.IsInvoke() {
+					ai = i // static method call: receiver is Args[0]
+				}
+				if ai < 0 || ai >= len(c.Args) {
+					continue
+				}
+				var pv ssa.Value = c.Args[ai]
+				if mi, ok := pv.(*ssa.MakeInterface); ok {
+					pv = mi.X
+				}
+				if pt, ok := types.Unalias(pv.Type()).Underlying().(*types.Pointer); ok {
+					p := x.ptrOf(x.val(st, fr, pv))
+					nv := e.fresh("decoded", pt.Elem())
+					e.assumeValid(st, nv)
+					x.storeVia(st, p, nv)
+					done = true
+				}
+			}
+		}
+		if !done {
+			e.havocAll(st)
 		}
 	}
 	// the callee may allocate: the allocation clock moves on
